@@ -380,6 +380,14 @@ fn real_run_in(case: &Value, dir: &Utf8PathBuf) -> Value {
     if let Some(n) = case["test_threads"].as_u64() {
         builder.set_test_threads(nextest_runner::config::TestThreads::Count(n as usize));
     }
+    // "max_fail": 0 = --no-fail-fast (MaxFail::All), n > 0 = --max-fail n; absent = the profile's
+    if let Some(n) = case["max_fail"].as_u64() {
+        builder.set_max_fail(if n == 0 {
+            nextest_runner::config::MaxFail::All
+        } else {
+            nextest_runner::config::MaxFail::Count(n as usize)
+        });
+    }
     let runner = builder
         .build(
             &test_list,
